@@ -4,6 +4,7 @@ import (
 	"bytes"
 	"fmt"
 	"os"
+	"strings"
 	"sync"
 	"time"
 
@@ -48,7 +49,82 @@ func opsLen(tap *memConn) int {
 	return len(tap.ops)
 }
 
+// c08ConcurrentConnections: several connections of one process write at the same time (clients draw their mask keys from
+// one package-level generator, servers share the buffer pool and the compressor pool): every connection's wire is whole
+// frames carrying exactly its own messages.  Under the race detector (thorough tier, and the "race-mini" pass of the quick
+// tier) this is also where unsynchronised shared state shows.
+func c08ConcurrentConnections(c *Ctx) error {
+	for _, server := range []bool{false, true} {
+		for _, pmd := range []bool{false, true} {
+			const nconn, nmsg = 4, 300
+			type one struct {
+				conn *gws.Conn
+				tap  *memConn
+			}
+			var cs []one
+			for i := 0; i < nconn; i++ {
+				conn, tap, err := connSpec{Server: server, PMD: pmd}.open(&recHandler{})
+				if err != nil {
+					return err
+				}
+				cs = append(cs, one{conn, tap})
+			}
+			var wg sync.WaitGroup
+			start := make(chan struct{})
+			for i := range cs {
+				wg.Add(1)
+				go func(i int) {
+					defer wg.Done()
+					<-start
+					for k := 0; k < nmsg; k++ {
+						pl := []byte(fmt.Sprintf("connection %d message %03d %s", i, k, strings.Repeat("x", k%40)))
+						switch k % 3 {
+						case 0:
+							_ = cs[i].conn.WriteMessage(gws.OpcodeText, pl)
+						case 1:
+							_ = cs[i].conn.Writev(gws.OpcodeText, pl[:5], pl[5:])
+						default:
+							_ = cs[i].conn.WritePing(pl[:20])
+							_ = cs[i].conn.WriteMessage(gws.OpcodeBinary, pl)
+						}
+					}
+				}(i)
+			}
+			close(start)
+			wg.Wait()
+			for i := range cs {
+				tag := fmt.Sprintf("concurrent connections server=%v pmd=%v connection=%d", server, pmd, i)
+				rx := &rfcReceiver{server: server}
+				ms, problem := rx.receive(cs[i].tap.written())
+				n := 0
+				for _, m := range ms {
+					if m.Opcode < 8 {
+						if !bytes.HasPrefix(m.Payload, []byte(fmt.Sprintf("connection %d message %03d ", i, n))) {
+							problem = fmt.Sprintf("data message %d on the wire is %q", n, head(m.Payload, 40))
+							break
+						}
+						n++
+					}
+				}
+				if problem != "" || n != nmsg {
+					c.oracleFail(fmt.Sprintf("connections writing at the same time: the wire of one of them is not its own messages in order (%d of %d; %s) [%s]", n, nmsg, problem, tag), "wire-not-frames", map[string]any{"tag": tag})
+				}
+				_ = cs[i].tap.Close()
+				c.count(tag, true, "kind=concurrent-connections")
+			}
+		}
+	}
+	return nil
+}
+
 func runC08(c *Ctx) error {
+	if err := c08ConcurrentConnections(c); err != nil {
+		return err
+	}
+	if c.Tier == "race-mini" {
+		c.Sum.Rule = "race-mini: several connections writing at the same time, under the Go race detector"
+		return nil
+	}
 	c.Sum.Rule = "(a) translator validation: for every synchronous write API x both roles x compression on/off x {valid call, content-rejected call, call after close, transport failing at the first write}, the sequence of transport operations observed on the real code must be the observable projection of an execution of the regenerated skeleton of that API (coq/Skel/Accept.v); (b) schedules: 2-6 goroutines using a random mix of all write APIs with tagged payloads on one connection whose transport parks every Write until released in random order: the wire must be whole frames, each message's frames contiguous, every call that reported success exactly one complete message, every rejected call none; non-trivial = all; distinct by scenario"
 	// ---- (a)
 	type call struct {
